@@ -119,7 +119,7 @@ LauncherEv(st) ==
          [] st.pc = "detR" -> {E("detR", i, IF scn.devfail = i THEN "fail" ELSE "ok")}
          [] st.pc = "term" -> {E("term", i, IF ~HAlive(st, i) THEN "gone" ELSE IF Denied(st, i, st.hnd) THEN "denied" ELSE "ok")}
          [] st.pc \in {"wait", "wait2"} -> IF ~HAlive(st, i) THEN {E("waitret", i, "ok")}
-                                          ELSE IF st.sw < scn.gr THEN {E("wtick", i, "ok")}
+                                          ELSE IF st.sw < (IF st.pc = "wait" THEN scn.gr ELSE 2 * scn.gr) THEN {E("wtick", i, "ok")}
                                           ELSE {E("waitret", i, "timeout")}
          [] st.pc = "kill" -> {E("kill", i, IF ~HAlive(st, i) THEN "gone" ELSE "ok")}
          [] st.pc = "detS" -> {E("detS", i, "ok")}
@@ -182,7 +182,8 @@ Eff(st, ev) ==
               ELSE [NoProc(st, i) EXCEPT !.looked[i] = TRUE, !.hnd = "none", !.pc = IF DetachGone THEN "detS" ELSE "sysm"]
          [] ev.a = "detR" ->
               LET t == [st EXCEPT !.detR = Inc(@, i)]
-              IN IF r = "ok" \/ ContinuePastFailure THEN [t EXCEPT !.pc = "term"]
+              IN IF r = "ok" THEN [t EXCEPT !.pc = "term"]
+                 ELSE IF ContinuePastFailure THEN [t EXCEPT !.warn[i] = TRUE, !.pc = "term"]   \* logged, the node is stopped all the same
                  ELSE [t EXCEPT !.err = "device", !.pc = "praise"]
          [] ev.a = "term" ->
               IF r = "gone" THEN [NoProc(st, i) EXCEPT !.pc = "detS"]
@@ -197,7 +198,7 @@ Eff(st, ev) ==
          [] ev.a = "kill" ->
               IF r = "gone" THEN [NoProc(st, i) EXCEPT !.pc = "detS"]
               ELSE LET t == [Signal(st, i, "killed") EXCEPT !.kill = Inc(@, i)]
-                   IN IF WaitAfterKill THEN [t EXCEPT !.sw = 0, !.pc = "wait2"]
+                   IN IF WaitAfterKill THEN [t EXCEPT !.pc = "wait2"]      \* a second wait of the same length: sw runs on to 2 * gr
                       ELSE [t EXCEPT !.acc = Append(@, i), !.pc = "detS"]
          [] ev.a = "detS" -> [st EXCEPT !.detS = Inc(@, i), !.pc = "sysm"]
          [] ev.a = "sysm" -> NextNodeOrEnd([st EXCEPT !.sysm = Inc(@, i)], i, "lookup", "pretok")
@@ -246,7 +247,7 @@ NoSurvivorWeakS(st) == st.pres = "ok" => \A i \in Nodes : InRet(st, i) /\ st.npi
 \* a started node that stop() does not report as stopped was reported in the log; a node reported as stopped got SIGTERM; no duplicates
 FailureReportedS(st) ==
     st.pres = "ok" => /\ \A i \in Nodes : IF InRet(st, i) THEN st.term[i] = 1 ELSE st.warn[i]
-                      /\ \A k, m \in 1..Len(st.ret) : k < m => st.ret[k] < st.ret[m]
+                      /\ \A k, m \in 1..Len(st.ret) : k # m => st.ret[k] # st.ret[m]
 \* stop() deals with every node it was given, whatever happened with the nodes before it ...
 StopCoversAllS(st) == st.pres # "none" => \A i \in Nodes : st.looked[i]
 \* ... as it is: when it returns normally
@@ -261,10 +262,12 @@ TelemetryOrderS(st) ==
                      /\ (st.detS[i] = 1 => st.term[i] = 1 \/ st.nsp[i] \/ st.warn[i])
 \* after stop() has returned every started node has been detached (running=False) and its system metrics stored once ...
 TelemetryCompleteS(st) == st.pres = "ok" => \A i \in Nodes : st.detS[i] = 1 /\ st.sysm[i] = 1
-\* ... as it is: detached iff its process was still there when stop() looked it up
+\* ... as it is: every node whose process was still there when stop() looked it up
 TelemetryCompleteFoundS(st) ==
-    st.pres = "ok" => \A i \in Nodes : /\ st.sysm[i] = 1
-                                      /\ st.detR[i] = (IF st.found[i] THEN 1 ELSE 0) /\ st.detS[i] = st.detR[i]
+    st.pres = "ok" => \A i \in Nodes : st.sysm[i] = 1 /\ (st.found[i] => st.detR[i] = 1 /\ st.detS[i] = 1)
+\* ... and no other (model checking of the code as it is only; for recorded runs this is a matter of L2)
+TelemetryAsIsS(st) ==
+    st.pres = "ok" => \A i \in Nodes : st.detR[i] = (IF st.found[i] THEN 1 ELSE 0) /\ st.detS[i] = st.detR[i]
 \* no process other than the ones start() spawned is ever signalled (environment: no stale pid file, no pid reuse)
 OnlyOwnSignalledS(st) == st.fsig = 0
 \* a start() that raises leaves no fully started node of the same call behind (NOT true of the code, self-test only)
@@ -281,6 +284,7 @@ StopCoversAllOk == StopCoversAllOkS(s)
 TelemetryOrder == TelemetryOrderS(s)
 TelemetryComplete == TelemetryCompleteS(s)
 TelemetryCompleteFound == TelemetryCompleteFoundS(s)
+TelemetryAsIs == TelemetryAsIsS(s)
 OnlyOwnSignalled == OnlyOwnSignalledS(s)
 NoLeakOnFailedStart == NoLeakOnFailedStartS(s)
 KillAfterGrace == [][KillAfterGraceA(s, act')]_vars
